@@ -24,7 +24,10 @@
 (* continuing - whether the record is missing for one agent or the whole   *)
 (* epoch is missing from the database), ObsReachFilter (every stored       *)
 (* observation of the epoch reaches its target's filter exactly once,      *)
-(* whichever engines own the sensor and the target), ImporterReadOnly.     *)
+(* whichever engines own the sensor and the target, and also when the row  *)
+(* is stored twice: the observation table is a BAG), RunContinues (the     *)
+(* only way a run stops early is MissingEphemerisError), ImporterReadOnly  *)
+(* (rows AND schema: opening the database creates nothing in it).          *)
 (* Named deviations (each must be refuted by TLC):                         *)
 (*   CountBasedCheck     (D9, as once coded) completeness judged by COUNTS *)
 (*   SkipEpochWithoutRow the Epoch row is resolved first; "nothing to      *)
@@ -33,6 +36,12 @@
 (*                       observation of the epoch                          *)
 (*   LoadOnlyOwnTargets  an engine loads only observations made by its own *)
 (*                       sensors of its own targets                        *)
+(*   CrashOnDuplicate    (as once coded) the "dropped duplicate" branch of *)
+(*                       loadImportedObservations raises AttributeError    *)
+(*   KeepDuplicates      a row stored twice is handed to the filter twice  *)
+(*   CreateMissingTables (as once coded) opening the importer database     *)
+(*                       runs create_all on it: tables of the data model   *)
+(*                       the file lacks are created in it                  *)
 (***************************************************************************)
 EXTENDS Integers, Sequences, FiniteSets, TLC
 
@@ -40,11 +49,18 @@ CONSTANTS Configs,              \* set of configuration records explored in mode
           CountBasedCheck,      \* D9 as coded
           SkipEpochWithoutRow,
           LoadEveryEngine,      \* D28 as coded
-          LoadOnlyOwnTargets
+          LoadOnlyOwnTargets,
+          CrashOnDuplicate,
+          KeepDuplicates,
+          CreateMissingTables
 
 VARIABLES cfg,      \* [agents, imported, targets, nsteps,
                     \*  epochs: set of step indices for which the importer database has an Epoch row,
                     \*  rows: set of <<a, k>> (ephemeris records), obs: set of <<k, t, s>> (observation records),
+                    \*  dup: the observation records that are stored TWICE (same sensor, target, epoch, values: e.g. a
+                    \*       database into which a run was imported twice),
+                    \*  schema: "full" (every table of the data model exists) or "minimal" (only the tables the importer
+                    \*       reads: epochs, agents, truth ephemerides, observations),
                     \*  born: [agents -> step in which the agent joins the scenario (0 = from the start)],
                     \*  engines: set of engine ids, sensorOf: [sensors -> engine], tracks: [engines -> SUBSET targets]]
           k, pc,
@@ -52,7 +68,7 @@ VARIABLES cfg,      \* [agents, imported, targets, nsteps,
           registered,
           done,     \* engines that have assessed (and loaded their imported observations) this step
           reached,  \* [obs -> number of times handed to the filter update of the observed target this step]
-          impdb     \* the importer database as the run leaves it: <<epochs, rows, obs>>
+          impdb     \* the importer database as the run leaves it: <<epochs, rows, obs, dup, schema>>
 vars == <<cfg, k, pc, held, registered, done, reached, impdb>>
 
 SensorsIn(c) == c.agents \ c.targets
@@ -62,17 +78,18 @@ WellFormed(c) ==
   /\ c.imported \subseteq c.agents /\ c.targets \subseteq c.agents
   /\ \A r \in c.rows : r[2] \in c.epochs
   /\ \A o \in c.obs : o[1] \in c.epochs /\ o[2] \in c.targets /\ o[3] \in SensorsIn(c)
+  /\ c.dup \subseteq c.obs /\ c.schema \in {"full", "minimal"}
   /\ DOMAIN c.sensorOf = SensorsIn(c) /\ \A s \in SensorsIn(c) : c.sensorOf[s] \in c.engines
   /\ DOMAIN c.tracks = c.engines /\ \A t \in c.targets : \E e \in c.engines : t \in c.tracks[e]
 
 InitWith(c) ==
   /\ WellFormed(c)
-  /\ cfg = c /\ k = 0 /\ pc = "idle"
+  /\ cfg = c /\ k = 0 /\ pc = "closed"
   /\ held = [a \in c.agents |-> <<"init", 0>>]
   /\ registered = {}
   /\ done = {}
   /\ reached = [o \in c.obs |-> 0]
-  /\ impdb = <<c.epochs, c.rows, c.obs>>
+  /\ impdb = <<c.epochs, c.rows, c.obs, c.dup, c.schema>>
 Init == \E c \in Configs : InitWith(c)
 
 \* agents that take part in step j (an agent added by an event of step j is propagated / imported in step j)
@@ -83,6 +100,13 @@ SensorsOf(e) == {s \in SensorsIn(cfg) : cfg.sensorOf[s] = e}
 \* the whole epoch is absent from the importer database: a hole across all agents, a database sampled more coarsely
 \* than the physics step, a database that ends before the scenario does
 EpochAbsent(j) == j \notin cfg.epochs
+
+\* building the scenario: every engine and the ephemeris importer open the database (ImporterDatabase.__init__)
+OpenImporter ==
+  /\ pc = "closed"
+  /\ pc' = "idle"
+  /\ impdb' = IF CreateMissingTables THEN [impdb EXCEPT ![5] = "full"] ELSE impdb
+  /\ UNCHANGED <<cfg, k, held, registered, done, reached>>
 
 \* ticToc; realtime agents are propagated by jobs, the others register with the importer
 BeginStep ==
@@ -127,11 +151,22 @@ ImportMissing ==
 Loads(e) == {o \in cfg.obs : /\ o[1] = k
                              /\ (LoadEveryEngine \/ o[3] \in SensorsOf(e))
                              /\ (LoadOnlyOwnTargets => o[2] \in cfg.tracks[e])}
+\* the query returns a stored-twice row twice; the engine keeps the first and drops the second ("Dropped duplicate")
+Copies(o) == IF KeepDuplicates /\ o \in cfg.dup THEN 2 ELSE 1
+HitsDuplicate(e) == Loads(e) \cap cfg.dup # {}
 LoadObs(e) ==
   /\ pc = "imported" /\ e \in cfg.engines \ done
+  /\ ~(CrashOnDuplicate /\ HitsDuplicate(e))
   /\ done' = done \cup {e}
-  /\ reached' = [o \in cfg.obs |-> IF o \in Loads(e) THEN reached[o] + 1 ELSE reached[o]]
+  /\ reached' = [o \in cfg.obs |-> IF o \in Loads(e) THEN reached[o] + Copies(o) ELSE reached[o]]
   /\ UNCHANGED <<cfg, k, pc, held, registered, impdb>>
+
+\* deviation: the branch that drops the duplicate raises, stepForward dies
+LoadObsCrash(e) ==
+  /\ pc = "imported" /\ e \in cfg.engines \ done
+  /\ CrashOnDuplicate /\ HitsDuplicate(e)
+  /\ pc' = "crashed"
+  /\ UNCHANGED <<cfg, k, held, registered, done, reached, impdb>>
 
 \* after the last engine: one EstUpdate job per estimate, fed with everything filed under its target
 UpdateFilters ==
@@ -145,9 +180,9 @@ EndStep ==
   /\ UNCHANGED <<cfg, k, held, registered, done, reached, impdb>>
 
 \* the engines assess one after the other (dictionary order in the code; the outcome does not depend on the order)
-LoadObsSome == \E e \in cfg.engines : LoadObs(e)
+LoadObsSome == \E e \in cfg.engines : LoadObs(e) \/ LoadObsCrash(e)
 
-Next == BeginStep \/ ImportOk \/ SkipImport \/ ImportMissing \/ LoadObsSome \/ UpdateFilters \/ EndStep
+Next == OpenImporter \/ BeginStep \/ ImportOk \/ SkipImport \/ ImportMissing \/ LoadObsSome \/ UpdateFilters \/ EndStep
 Spec == Init /\ [][Next]_vars
 
 \* after a successful import every imported agent holds the database record of THIS epoch
@@ -160,7 +195,9 @@ NoStaleState ==
 ExpectedCount(o) == IF o[1] = k THEN 1 ELSE 0
 ObsReachFilter ==
   pc = "loaded" => \A o \in cfg.obs : o[2] \in Active(k) => reached[o] = ExpectedCount(o)
-\* the importer database is never modified by a run
+\* a run ends by reaching its last step or by MissingEphemerisError - an importer database never makes it die otherwise
+RunContinues == pc # "crashed"
+\* the importer database is never modified by a run: neither its rows nor its schema
 ImporterReadOnly == [][impdb' = impdb]_vars
 \* an observation whose sensor is tasked by an engine that does not track its target
 CrossEngine(o) == o[2] \notin cfg.tracks[cfg.sensorOf[o[3]]]
